@@ -152,6 +152,7 @@ pub fn lift_type(reg: &LiftRegistry, ty: &syn::Type, self_ty: Option<&str>) -> R
                     }
                     return unsupported("array element type", ty);
                 }
+                "Array3" => return Ok("RArr3".into()),
                 "Array2" => {
                     if args.len() == 1 && lift_type(reg, args[0], self_ty)? == "Rec" {
                         return Ok("OArr2".into());
@@ -667,6 +668,13 @@ impl<'a> Lifter<'a> {
             Expr::Index(ix) => {
                 let a = self.expr(&ix.expr)?;
                 if let Expr::Array(arr) = &*ix.index {
+                    // L9d: a three-dimensional table `a3[[i, j, k]]`
+                    if arr.elems.len() == 3 && a.ty == "RArr3" {
+                        let i = self.expr(&arr.elems[0])?;
+                        let j = self.expr(&arr.elems[1])?;
+                        let k = self.expr(&arr.elems[2])?;
+                        return Ok(v(format!("({}.at)({}, {}, {})", a.text, i.text, j.text, k.text), "real"));
+                    }
                     if arr.elems.len() == 2 && a.ty == "RArr2" {
                         let i = self.expr(&arr.elems[0])?;
                         let j = self.expr(&arr.elems[1])?;
@@ -3933,6 +3941,64 @@ pub fn lift_fn(ctx: &mut Ctx, blk: &Block) -> Result<(String, Value), String> {
             stmts.insert(0, st.clone());
             k -= 1;
         }
+        // L28e: immutable top-level `let x = <expr>;` statements further up that the tail reads (directly or through the
+        // statements pulled so far) and the directive does not list are pulled in as well - provided no statement
+        // between such a `let` and the tail start assigns anything the `let` reads (`let m = p.m[0];` at the top of the
+        // function, used throughout)
+        {
+            // variables only: single-identifier paths (field and method names are not variables)
+            struct VarsE(Vec<String>);
+            impl<'ast> syn::visit::Visit<'ast> for VarsE {
+                fn visit_expr_path(&mut self, p: &'ast syn::ExprPath) {
+                    if let Some(i) = p.path.get_ident() {
+                        self.0.push(i.to_string());
+                    }
+                }
+                fn visit_macro(&mut self, m: &'ast syn::Macro) {
+                    self.0.extend(Lifter::idents_of(&m.tokens));
+                }
+            }
+            let mut pulled_idx: Vec<usize> = Vec::new();
+            loop {
+                let tail_blk = syn::Block { brace_token: Default::default(), stmts: stmts.clone() };
+                let used = { let mut v = VarsE(vec![]); syn::visit::Visit::visit_block(&mut v, &tail_blk); v.0 };
+                // names the tail binds itself (closure parameters, patterns) are not reads of an outer binding
+                let bound_inside = {
+                    struct PBE(Vec<String>);
+                    impl<'ast> syn::visit::Visit<'ast> for PBE {
+                        fn visit_pat_ident(&mut self, i: &'ast syn::PatIdent) { self.0.push(i.ident.to_string()); }
+                    }
+                    let mut v = PBE(vec![]);
+                    syn::visit::Visit::visit_block(&mut v, &tail_blk);
+                    v.0
+                };
+                let mut picked: Option<usize> = None;
+                for j in (0..k).rev() {
+                    if pulled_idx.contains(&j) { continue; }
+                    if let syn::Stmt::Local(l) = &f.block.stmts[j] {
+                        if let (syn::Pat::Ident(pi), Some(li)) = (&l.pat, &l.init) {
+                            let n = pi.ident.to_string();
+                            if pi.mutability.is_none() && used.contains(&n) && !bound_inside.contains(&n) && !params.iter().any(|(p, _)| *p == n) {
+                                // the nearest binding of the name is the one in scope; it must not be shadowed later
+                                let shadowed = f.block.stmts[j + 1..k].iter().any(|st| matches!(st, syn::Stmt::Local(l2) if matches!(&l2.pat, syn::Pat::Ident(p2) if p2.ident == n)));
+                                let lreads = { let mut v = VarsE(vec![]); syn::visit::Visit::visit_expr(&mut v, &li.expr); v.0 };
+                                let between = syn::Block { brace_token: Default::default(), stmts: f.block.stmts[j + 1..k].to_vec() };
+                                let assigned = Lifter::assigned_vars(&between);
+                                if !shadowed && !assigned.iter().any(|a| lreads.contains(a) || *a == n) {
+                                    picked = Some(j);
+                                    break;
+                                }
+                            }
+                        }
+                    }
+                }
+                let Some(j) = picked else { break };
+                pulled_idx.push(j);
+                // keep source order among the pulled statements
+                let pos = pulled_idx.iter().filter(|&&q| q < j).count();
+                stmts.insert(pos, f.block.stmts[j].clone());
+            }
+        }
         let tail_blk = syn::Block { brace_token: Default::default(), stmts: stmts.clone() };
         // variables the tail reads: single-identifier paths (field and method names are not variables); macro arguments
         // are token soup, every identifier in them counts
@@ -4181,6 +4247,13 @@ pub fn lift_fn(ctx: &mut Ctx, blk: &Block) -> Result<(String, Value), String> {
             struct FindBlk<'x> { name: String, assign: bool, skip: usize, found: Option<(&'x syn::Block, usize)>, stack: Vec<(&'x syn::Block, usize)>, path: Vec<(&'x syn::Block, usize)> }
             impl<'ast> FindBlk<'ast> {
                 fn is_anchor(&mut self, st: &'ast syn::Stmt) -> bool {
+                    if let Some(rn) = self.name.strip_prefix('~') {
+                        // `range_of=<i>`: the anchor is the `for <i> in ..` statement
+                        if let syn::Stmt::Expr(syn::Expr::ForLoop(fl), _) = st {
+                            return matches!(&*fl.pat, syn::Pat::Ident(pi) if pi.ident == rn);
+                        }
+                        return false;
+                    }
                     if !self.assign {
                         if let syn::Stmt::Local(l) = st {
                             let id = match &l.pat {
